@@ -302,6 +302,14 @@ func propEncode(t *rapid.T) {
 	if !bytes.Equal(p.UncompressedBytes(), pc.P.Uncompressed()) {
 		t.Fatal("UncompressedBytes aliases internal state")
 	}
+	// ... every one of them, also for other objects that hold the same point ("each point has exactly one
+	// compressed and one uncompressed encoding", whatever callers did with earlier results)
+	if msg := lib.EncodingsSurviveCallerWrites(p); msg != "" {
+		t.Fatalf("%v: %s", pc.P, msg)
+	}
+	if o := lib.Pt(pc.P); !bytes.Equal(o.CompressedBytes(), pc.P.Compressed()) || !bytes.Equal(o.UncompressedBytes(), pc.P.Uncompressed()) {
+		t.Fatalf("%v: another object holding the same point encodes as %x / %x after the caller overwrote earlier results", pc.P, o.CompressedBytes(), o.UncompressedBytes())
+	}
 }
 
 func TestC06_Encode(t *testing.T) { rapid.Check(t, propEncode) }
